@@ -3,7 +3,7 @@
 
   tools_seeded.py <seeded-dir-or-patch> [--checks C06,C01] [--tier quick] [--seeds 0] [--tree DIR] [--keep]
 
-The change is applied to a scratch worktree of /repo (default /tmp/vv-seeded-eval, created at /repo's HEAD, removed afterwards unless --keep), the
+The change is applied to a scratch worktree of /repo (default /tmp/vv-seeded-eval-<pid>, created at /repo's HEAD, removed afterwards unless --keep is given together with --tree), the
 checks run against it through VERIF_REPO with their outputs redirected (VERIF_OUT) so that the registered evidence of /verif is untouched, and the
 verdict per check is printed: CAUGHT (exit 1 with an unlisted violation), held (exit 0), inconclusive (exit 2), error.
 Also runs demo.py of the seeded directory on the changed and on the clean tree when present.
@@ -29,7 +29,7 @@ def main():
     ap.add_argument("--checks", default=None)
     ap.add_argument("--tier", default="quick")
     ap.add_argument("--seeds", default="0")
-    ap.add_argument("--tree", default="/tmp/vv-seeded-eval")
+    ap.add_argument("--tree", default="/tmp/vv-seeded-eval-%d" % os.getpid(), help="scratch worktree (one per invocation, so that evaluations can run side by side)")
     ap.add_argument("--keep", action="store_true")
     ap.add_argument("--tests", action="store_true", help="also run the repository's own test suite on the changed tree")
     ap.add_argument("--adopt", default=None, help="copy patch.diff / demo.py / meta.json to /verif/seeded/<name>/ and record this evaluation in its meta.json")
@@ -89,7 +89,7 @@ def main():
     finally:
         sh(["git", "-C", tree, "checkout", "--", "."])
         shutil.rmtree(out, ignore_errors=True)
-        if not a.keep:
+        if not a.keep or "--tree" not in sys.argv:
             sh(["git", "-C", "/repo", "worktree", "remove", "--force", tree])
     for k in ("demo_clean", "demo_changed", "tests"):
         if k in result:
